@@ -3,6 +3,7 @@ package main
 import (
 	"fmt"
 	"reflect"
+	"runtime/debug"
 	"sort"
 	"strings"
 
@@ -31,20 +32,34 @@ func indexedUnder(cfg Cfg, p string) bool {
 	return true
 }
 
+// safeCall runs f and returns a description of the panic it raised, if any:
+// "<message> @ <innermost function of package sod on the stack>".
 func safeCall(f func()) (panicked string) {
 	defer func() {
 		if r := recover(); r != nil {
-			if _, killed := r.(interface{ killedMarker() }); killed {
-				panic(r)
-			}
 			if fmt.Sprintf("%T", r) == "vrt.killedT" {
 				panic(r)
 			}
-			panicked = fmt.Sprint(r)
+			panicked = fmt.Sprint(r) + " @ " + sodFrame(string(debug.Stack()))
 		}
 	}()
 	f()
 	return ""
+}
+
+// sodFrame returns the innermost function of package sod found in a stack dump.
+func sodFrame(stack string) string {
+	for _, l := range strings.Split(stack, "\n") {
+		l = strings.TrimSpace(l)
+		if strings.HasPrefix(l, "github.com/0xrawsec/sod.") && !strings.Contains(l, "/zzverif/") {
+			name := strings.TrimPrefix(l, "github.com/0xrawsec/sod.")
+			if i := strings.LastIndex(name, "("); i > 0 {
+				name = name[:i]
+			}
+			return name
+		}
+	}
+	return "?"
 }
 
 // Observe renders everything a user can read from the handle, deterministically
